@@ -9,6 +9,7 @@ func allProps() []PropSpec {
 				{Func: "ZZ_C01_H2", Pkg: "pkg/protocol/http1", Quick: map[string]int{"D": 2, "V": 3, "FRAG": 1}, Thorough: map[string]int{"D": 3, "V": 4, "FRAG": 2}, Covers: []string{"valid-reached", "invalid-reached"}},
 				{Func: "ZZ_C01_H3", Pkg: "pkg/protocol/http1", Quick: map[string]int{"C": 2, "S": 2, "SL": 2, "FRAG": 1}, Thorough: map[string]int{"C": 3, "S": 3, "SL": 2, "FRAG": 2}, Covers: []string{"reached-assert", "two-chunks"}},
 				{Func: "ZZ_C01_H4", Pkg: "pkg/protocol/http1", Quick: map[string]int{"K": 2, "FRAG": 3}, Thorough: map[string]int{"K": 3, "FRAG": 4}, Covers: []string{"reached-assert", "two-requests"}},
+				{Func: "ZZ_C01_BIG", Pkg: "pkg/protocol/http1", Covers: []string{"reached-assert"}, Unwind: 40000, MaxSteps: 8000000, Note: "body lengths 4095..4097 and 8191..8193, fixed and chunked, four fragmentations"},
 				{Func: "ZZ_C14_H1", Pkg: "pkg/protocol/http1", Quick: map[string]int{"L": 4, "C": 2, "S": 3, "R": 2}, Thorough: map[string]int{"L": 6, "C": 2, "S": 6, "R": 3}, Covers: []string{"reached-assert"}, MaxSteps: 4000000, Note: "streaming mode: shared with C14 (its pipelined-request-still-handled assertion is a C01 clause)"},
 			},
 			Assumptions: []string{"transport: the real standard.Conn over a harness net.Conn; netpoll is outside", "bodies are a few bytes; buffer-boundary sizes (4 KiB/8 KiB) are C13/C14's subject", "Content-Length spellings valid only with HTAB as OWS are in neither obligation (refusing them is safe)", "multipart pre-parsing disabled"},
@@ -62,6 +63,7 @@ func allProps() []PropSpec {
 				{Func: "ZZ_C05_REQ", Pkg: "pkg/protocol", Quick: map[string]int{"K": 2, "V": 3}, Thorough: map[string]int{"K": 3, "V": 4}, Covers: []string{"reached-assert"}},
 				{Func: "ZZ_C05_RESP", Pkg: "pkg/protocol", Quick: map[string]int{"K": 2, "V": 3}, Thorough: map[string]int{"K": 3, "V": 4}, Covers: []string{"reached-assert"}},
 				{Func: "ZZ_C05_TRAILER", Pkg: "pkg/protocol", Quick: map[string]int{"K": 2, "V": 3}, Thorough: map[string]int{"K": 3, "V": 4}, Covers: []string{"reached-assert", "accepted"}},
+				{Func: "ZZ_C05_CTX", Pkg: "pkg/protocol/http1", Quick: map[string]int{"V": 2}, Thorough: map[string]int{"V": 3}, Covers: []string{"reached-assert"}, Note: "RequestContext helpers: Header, SetCookie (name/value/path/domain), Redirect, SetContentType"},
 			},
 			Assumptions: []string{"entry points are the hand-listed setters in harness/pkg/protocol/c05.go (12 request, 12 response, trailer Set)", "request method and request-target are not header-setting APIs and are outside the property's list", "values/keys longer than the bounds are outside the claim"},
 		},
@@ -148,6 +150,7 @@ func allProps() []PropSpec {
 			ID: "C09",
 			Harnesses: []HarnessSpec{
 				{Func: "ZZ_C09_H1", Pkg: "pkg/protocol/http1", Covers: []string{"reached-assert"}, MaxSteps: 4000000},
+				{Func: "ZZ_C09_H2", Pkg: "pkg/protocol", Covers: []string{"reached-assert", "same-object-reissued"}, Note: "AcquireURI/Cookie/Request/Response after Release: 12 mutators each, pairs"},
 				{Func: "ZZ_C14_H2", Pkg: "pkg/protocol/http1", Covers: []string{"reached-assert", "both-handled"}, Note: "pooled body stream reused on another connection after a failed release"},
 			},
 			Assumptions: []string{"sequential reuse only (sync.Pool modelled LIFO, so the recycled object really is the one handed out next); cross-goroutine migration and the race detector are outside this technique", "history = one or two mutators from the 30-entry list in harness/pkg/protocol/http1/c09.go with a symbolic argument byte, optionally followed by a recovered panic; observation = the dump in zzDump plus the probe's response bytes"},
